@@ -30,8 +30,14 @@ FORM_FLOOR_OF_PRODUCT = sym.canon(_b('+', MEM, _b('/', _b('*', II, SIZE), NN))) 
 FORM_PRODUCT_OF_FLOOR = sym.canon(_b('+', MEM, _b('*', II, _b('/', SIZE, NN))))      # base + i*(size/N)
 
 
+def norm_bs(c):
+    """block_start as a member function or as a static helper that is handed block_: one spelling"""
+    return re.sub(r'[\w:<>, ]*iteration_allocator<[^()]*>::block_start\(this\.block_,', 'this.block_start(', c)
+
+
 def norm_end(c):
     """one spelling for the end of region x: block_end(x) is block_start(x + 1), whether or not the accessor exists"""
+    c = norm_bs(c)
     c = re.sub(r'this\.block_start\(\(1 \+ ([^()]+|[^()]*\([^()]*\)[^()]*)\)\)', r'this.block_end(\1)', c)
     c = re.sub(r'this\.block_start\(\(([^()]+|[^()]*\([^()]*\)[^()]*) \+ 1\)\)', r'this.block_end(\1)', c)
     return c
@@ -170,6 +176,15 @@ def _lin_of_canon(c):
 
 def block_start_term(fn):
     """canonical return term of block_start with its parameter as $i and locals inlined"""
+    if len(fn.params) == 2:
+        # a static helper taking the block explicitly: block_start(block_, i)
+        S = [s for s in fwd.summarize(fn, roles={0: 'blk', 1: 'i'}) if s.end == 'return']
+        if len(S) != 1 or S[0].ret_term is None:
+            return None
+        from engine.inline import _walk_terms
+        blk = {'k': 'member', 'base': {'k': 'this'}, 'name': 'block_'}
+        t = _walk_terms(S[0].ret_term, lambda d: blk if d.get('k') == 'param' and d.get('i') == 0 else d)
+        return sym.canon(t, {1: 'i'})
     S = [s for s in fwd.summarize(fn, roles={0: 'i'}) if s.end == 'return']
     if len(S) != 1 or S[0].ret is None:
         return None
@@ -214,7 +229,8 @@ def check_instance(run, db, cls, fns):
             continue
         if isinstance(cf, tuple):
             t = cf[1]
-            if t.get('k') == 'call' and t.get('short') == 'block_start' and sym.canon(t['args'][0]) == '$i':
+            if t.get('k') == 'call' and t.get('short') == 'block_start' and sym.canon(t['args'][-1]) == '$i' \
+                    and (len(t['args']) == 1 or sym.canon(t['args'][0]) == 'this.block_'):
                 run.ok('R-TERM.start', inst, ctor.loc, 'stacks_[i] starts at block_start(i)')
             else:
                 run.violation('R-TERM.start', inst, ctor.loc, 'stacks_[i] starts at %s' % sym.canon(t), site=site)
@@ -252,7 +268,7 @@ def check_instance(run, db, cls, fns):
                 probs.append('unwinds %d stacks' % len(un))
                 continue
             want = 'this.stacks_[%s].unwind(this.block_start(%s))' % (nxt, nxt)
-            if un[0][0] != want:
+            if norm_bs(un[0][0]) != want:
                 probs.append('resets `%s`, expected `%s`' % (un[0][0], want))
         if probs:
             run.violation('R-ITER', inst, f.loc, '; '.join(sorted(set(probs))), site=site)
